@@ -61,7 +61,7 @@ def run_one(params: dict, chooser) -> dict:
         extra = {} if params.get('net_dev') else {'early': False, 'reorder': False, 'hold_kinds': {'op'}}
         if params.get('resume'):
             extra['lazy_exec'] = True      # thread-pool jobs (file exists / remove) complete when the environment says
-        tw = TransferWorld(base_dir=base, horizon=200.0, chooser=chooser, op_anywhere=True, op_dedup=True, **extra,
+        tw = TransferWorld(base_dir=base, horizon=200.0, chooser=chooser, op_anywhere=True, op_dedup=True, op_at_ticks=True, **extra,
                            settings={'network': {'peer': {'connect_mode': params.get('mode', 'race')}},
                                      'transfers': {'report_interval': 30.0}})
         try:
